@@ -635,6 +635,8 @@ func (w *c09World) start(faults []fault) (*world.Run, world.Expect) {
 			errorKind(&sc.Nodes[f.Node], f.Node)
 		case "pp":
 			world.PPCoreOf(pps[f.PP]).FailOn[f.CB+":"+sc.Nodes[f.Node].DisplayName()] = true
+			// every other failing callback answers the usual Go way, (nil, err), instead of (component, err)
+			world.PPCoreOf(pps[f.PP]).NilOnFail = (f.Node+f.PP)%2 == 1
 		case "scanner":
 			scanner.FailFor[sc.Nodes[f.Node].DisplayName()] = true
 		case "scanner-all":
